@@ -349,6 +349,7 @@ Expected(s, q) ==
          ELSE IF ~ValidateOrder(s, q) THEN "REFUSE"
          ELSE "ANY"
     ELSE IF ~Has(s.ord, q.o) THEN "ANY"
+    ELSE IF q.tclient # "" /\ q.tclient # s.ord[q.o].client THEN "ERROR"    \* OrderError: other client's order
     ELSE IF ~q.force /\ ~MktOpen(s, q.mid) THEN "REFUSE"
     ELSE IF q.force THEN (IF GuardOk(s, q) THEN "ACCEPT" ELSE "ERROR")
     ELSE IF ~GuardOk(s, q) THEN "ERRORorREFUSE"
@@ -357,7 +358,8 @@ Expected(s, q) ==
 ReqOne(s, q) ==
     IF q.r = "NOORDER" THEN s
     ELSE IF q.kind = "PLACE"
-    THEN LET s0 == EnsureOrder(s, q)
+    THEN LET s00 == EnsureOrder(s, q)
+             s0 == [s00 EXCEPT !.ord[q.o].client = q.client]     \* order.update_client(transaction client) comes first
              s1 == IF q.ctx THEN EnterTrade(s0, q.t) ELSE s0
              s2 == IF s0.ord[q.o].inbl THEN s1   \* already placed: rejected, nothing changes
                    ELSE IF q.r = "REFUSE" THEN ClearUpd(SetStatus(s1, q.o, "VIOLATION"), q.o)
